@@ -356,7 +356,17 @@ def r9(ctx, r):
         other = [show(c) for c, t in facts if not any(w in show(c) for w in ALLOWED_REFUSAL)]
         blk_pred = [b for b in te.blocks.values() if b.cond is not None and e.block.id in [x for x in b.succs if x is not None]]
         direct = [show(b.cond) for b in blk_pred]
-        ok = bool(direct) and all(any(w in d for w in ALLOWED_REFUSAL) for d in direct)
+
+        def allowed(c):
+            c = strip_casts(c)
+            t = show(c)
+            cp = common.cmp_parts(c)
+            if cp:
+                sides = {show(strip_casts(cp[1])), show(strip_casts(cp[2]))}
+                return sides == {"_tasks.size()", "_maxQueueSize"} and cp[0] in (">=", ">", "==")
+            # flag tests: the accepting / shutdown / state flags, possibly negated or loaded
+            return any(w in t for w in ("_accepting", "_shutdown", "_stopping", "_draining", "_state")) and not any(w in t for w in ("size()", "owns_lock", "try_lock"))
+        ok = bool(blk_pred) and all(allowed(b.cond) for b in blk_pred)
         r.expect(ok, te, e, "refusal for another reason", "tryEnqueueImpl refuses the task on the condition `%s`, which is neither 'queue full' nor 'pool draining / shut down': a submission is lost although "
                  "the pool is running with queue space free (e.g. whenever another thread happens to hold the pool mutex)" % "; ".join(direct or ["?"])[:120], okdesc="refusal on `%s`" % (direct[0][:50] if direct else ""))
     # the pool mutex is acquired blockingly (a try-lock turns contention into refusal or into unsynchronised access)
